@@ -184,6 +184,8 @@ def _oracle(c):
     m = {}
     rev = c["order"] == 1
     for i, s in enumerate(c["steps"]):
+        if s.get("panic"):
+            return i, "%s(%s) panicked: %s" % (s["op"], s["k"], s["panic"])
         want = 0
         if s["op"] == "put":
             m[s["k"]] = s["v"]
